@@ -9,6 +9,13 @@
 //	    is called (own goroutine, deadline), then the parked connections are released in order o.
 //	    points: idle head reqmod rt resmod write | gate (Serve held between Accept and `go handleLoop`
 //	    by a net.Conn whose RemoteAddr blocks) | late (connects after shutdown is observable)
+//	    t=1: the proxy keeps its REAL default http.Transport (observed by a pass-through wrapper that
+//	    leaves the request and its context untouched) and the requests go to a gated raw TCP origin:
+//	    `rt` = the origin has read the request and has not answered yet; `rbody` = the origin has sent the
+//	    head and half of the body while the exchange is parked in the response modifier (released first,
+//	    the origin after it); `wbody` = the same while the proxy is already relaying the body to the
+//	    client. te=1: the origin answers chunked; d=<µs>: pause between "shutdown observable" and the
+//	    first release. The client must receive the ORIGIN's response: status 200 and the whole body.
 //	race c=<clients> d=<delay µs> — clients connect/request concurrently with Close()
 //
 // Every event (listener accept, modifier/round-trip entry and exit, first/last byte of a response at
@@ -48,7 +55,10 @@ func (P) Rule() string {
 	return "case = one scenario on a real martian.Proxy over loopback TCP: 1..3 connections each parked at one of the progress points " +
 		"idle / mid request head / in request modifier / in round trip / in response modifier / while the response is written " +
 		"(after 0..2 complete exchanges, with or without Connection: close on request or response), optionally one connection held " +
-		"between Accept and the handler spawn (blocking RemoteAddr) or one connecting after shutdown began; Close() is called and the " +
+		"between Accept and the handler spawn (blocking RemoteAddr) or one connecting after shutdown began; either with a gated stub round " +
+		"tripper that honours the request context, or (t=1) with the proxy's real default http.Transport against a gated raw TCP origin " +
+		"(origin parked before answering, or parked half-way through a Content-Length / chunked body while the exchange is in the response " +
+		"modifier or already being relayed); Close() is called and the " +
 		"parked connections are released in a given order; or a race of N clients against Close(). The recorded event trace is " +
 		"validated against the Lean model and judged by the oracle. Distinct by hash of the op; non-trivial when Close() was called " +
 		"while at least one connection was parked inside an exchange, held before the spawn, or accepted late, or (race) when at least " +
@@ -58,7 +68,7 @@ func (P) Rule() string {
 func (P) Nontrivial(ops []string, impl []string) bool {
 	for i, op := range ops {
 		if strings.HasPrefix(op, "scn ") {
-			for _, pt := range []string{"reqmod", "rt", "resmod", "write", "gate", "late", "head"} {
+			for _, pt := range []string{"reqmod", "rt", "resmod", "write", "gate", "late", "head", "rbody", "wbody"} {
 				if strings.Contains(op, pt) {
 					return true
 				}
@@ -110,6 +120,8 @@ type world struct {
 	plans     []*cplan // plan for the k-th accepted connection
 	body      []byte
 	serveDone chan struct{}
+	host      string  // authority of the request URLs
+	org       *origin // nil: stub round tripper
 }
 
 // cplan says where (if anywhere) the k-th connection is to be parked.
@@ -121,10 +133,26 @@ type cplan struct {
 	parked   chan struct{}
 	once     sync.Once
 	gonce    sync.Once
+	// origin side (t=1): the origin has sent half of its response / may send the rest; rmDone: the
+	// response modifier of the parked exchange has returned
+	ogate, oparked, rmDone chan struct{}
+	oonce, ogonce, rmonce  sync.Once
 }
 
-func (c *cplan) arrive()  { c.once.Do(func() { close(c.parked) }) }
-func (c *cplan) release() { c.gonce.Do(func() { close(c.gate) }) }
+func newPlan(point string, seq int, resClose bool) *cplan {
+	return &cplan{point: point, parkSeq: seq, resClose: resClose, gate: make(chan struct{}), parked: make(chan struct{}),
+		ogate: make(chan struct{}), oparked: make(chan struct{}), rmDone: make(chan struct{})}
+}
+
+func (c *cplan) arrive()   { c.once.Do(func() { close(c.parked) }) }
+func (c *cplan) release()  { c.gonce.Do(func() { close(c.gate) }) }
+func (c *cplan) oarrive()  { c.oonce.Do(func() { close(c.oparked) }) }
+func (c *cplan) orelease() { c.ogonce.Do(func() { close(c.ogate) }) }
+
+// parksAt: does the proxy-side gate of this plan sit at the given point?
+func (c *cplan) parksAt(point string) bool {
+	return c.point == point || (c.point == "rbody" && point == "resmod")
+}
 
 func waitCh(ch <-chan struct{}, d time.Duration) bool {
 	select {
@@ -148,8 +176,16 @@ type sconn struct {
 	closed    chan struct{}
 	conce     sync.Once
 	wmu       sync.Mutex
-	wpending  int // bytes of the current response still to be written
-	wseq      int // responses started
+	wpending  int    // bytes of the current response still to be written
+	wseq      int    // responses started
+	wchunked  bool   // the current response is chunked: it ends with the last-chunk "0\r\n\r\n"
+	wtail     []byte // last bytes written of a chunked response
+}
+
+func (c *sconn) started() int {
+	c.wmu.Lock()
+	defer c.wmu.Unlock()
+	return c.wseq
 }
 
 type fixedAddr string
@@ -212,7 +248,8 @@ func (c *sconn) Write(p []byte) (int, error) {
 	c.wmu.Lock()
 	defer c.wmu.Unlock()
 	park := false
-	if c.wpending == 0 {
+	bodyFrom := 0 // chunked: offset in p from which the bytes belong to the chunk stream (incl. the CRLF ending the head)
+	if !c.wchunked && c.wpending == 0 {
 		he := bytes.Index(p, []byte("\r\n\r\n"))
 		if he < 0 {
 			c.w.log.add("bad:%d:head-not-in-first-chunk", c.k)
@@ -228,14 +265,23 @@ func (c *sconn) Write(p []byte) (int, error) {
 			if strings.HasPrefix(ln, "connection:") && strings.Contains(ln, "close") {
 				mark = 1
 			}
+			if strings.HasPrefix(ln, "transfer-encoding:") && strings.Contains(ln, "chunked") {
+				c.wchunked = true
+			}
 		}
-		c.wpending = he + 4 + cl
+		if c.wchunked {
+			c.wtail = nil
+			bodyFrom = he + 2
+		} else {
+			c.wpending = he + 4 + cl
+		}
 		c.w.log.add("ws:%d:%d", c.k, mark)
 		if c.plan != nil && c.plan.point == "write" && c.wseq == c.plan.parkSeq {
 			park = true
 		}
 		c.wseq++
 	}
+	orig := p
 	written := 0
 	if park && len(p) >= 2 {
 		h := len(p) / 2
@@ -250,6 +296,12 @@ func (c *sconn) Write(p []byte) (int, error) {
 	}
 	n, err := c.Conn.Write(p)
 	written += n
+	if c.wchunked {
+		if written > bodyFrom {
+			c.chunkedProgress(orig[bodyFrom:written])
+		}
+		return written, err
+	}
 	c.wpending -= written
 	if c.wpending < 0 {
 		c.w.log.add("bad:%d:wrote-past-content-length", c.k)
@@ -259,6 +311,20 @@ func (c *sconn) Write(p []byte) (int, error) {
 		c.w.log.add("we:%d", c.k)
 	}
 	return written, err
+}
+
+// chunkedProgress follows a chunked response (bodies are letters only, so "\r\n0\r\n\r\n" is the
+// last chunk and nothing else); called under wmu with the bytes just written.
+func (c *sconn) chunkedProgress(b []byte) {
+	c.wtail = append(c.wtail, b...)
+	if len(c.wtail) > 7 {
+		c.wtail = append([]byte{}, c.wtail[len(c.wtail)-7:]...)
+	}
+	if bytes.Equal(c.wtail, []byte("\r\n0\r\n\r\n")) {
+		c.wchunked = false
+		c.wtail = nil
+		c.w.log.add("we:%d", c.k)
+	}
 }
 
 type wlistener struct {
@@ -313,11 +379,14 @@ func (w *world) at(point string, req *http.Request, start, end string, endArg fu
 		return
 	}
 	w.log.add("%s:%d", start, sc.k)
-	if sc.plan != nil && sc.plan.point == point && sc.plan.parkSeq == i {
+	if sc.plan != nil && sc.plan.parksAt(point) && sc.plan.parkSeq == i {
 		sc.plan.arrive()
 		waitCh(sc.plan.gate, 30*time.Second)
 	}
 	w.log.add("%s:%d%s", end, sc.k, endArg())
+	if point == "resmod" && sc.plan != nil && sc.plan.parkSeq == i {
+		sc.plan.rmonce.Do(func() { close(sc.plan.rmDone) })
+	}
 }
 
 type reqMod struct{ w *world }
@@ -336,18 +405,39 @@ func (m resMod) ModifyResponse(res *http.Response) error {
 
 type rtrip struct{ w *world }
 
+// RoundTrip of the stub: parks at the `rt` point. Like a real transport it gives up with the
+// context's error as soon as the request's context is cancelled (event rtx: the round trip did not
+// deliver the origin's response — the model has no such step).
 func (t rtrip) RoundTrip(req *http.Request) (*http.Response, error) {
 	rc := false
 	addr, i := ids(req)
-	if sc := t.w.connOf(addr); sc != nil && sc.plan != nil && sc.plan.parkSeq == i && sc.plan.resClose {
+	sc := t.w.connOf(addr)
+	if sc == nil {
+		t.w.log.add("bad:-1:unknown-conn-in-rt")
+		return nil, fmt.Errorf("unknown connection")
+	}
+	if sc.plan != nil && sc.plan.parkSeq == i && sc.plan.resClose {
 		rc = true
 	}
-	t.w.at("rt", req, "rts", "rte", func() string {
-		if rc {
-			return ":1"
+	ctx := req.Context()
+	t.w.log.add("rts:%d", sc.k)
+	if ctx.Err() == nil && sc.plan != nil && sc.plan.parksAt("rt") && sc.plan.parkSeq == i {
+		sc.plan.arrive()
+		select {
+		case <-sc.plan.gate:
+		case <-ctx.Done():
+		case <-time.After(30 * time.Second):
 		}
-		return ":0"
-	})
+	}
+	if err := ctx.Err(); err != nil {
+		t.w.log.add("rtx:%d:%s", sc.k, sanitize(err.Error()))
+		return nil, err
+	}
+	if rc {
+		t.w.log.add("rte:%d:1", sc.k)
+	} else {
+		t.w.log.add("rte:%d:0", sc.k)
+	}
 	res := &http.Response{
 		Status: "200 OK", StatusCode: 200, Proto: "HTTP/1.1", ProtoMajor: 1, ProtoMinor: 1,
 		Header:        http.Header{"Content-Type": {"application/octet-stream"}},
@@ -359,9 +449,138 @@ func (t rtrip) RoundTrip(req *http.Request) (*http.Response, error) {
 	return res, nil
 }
 
+// rtObs observes the proxy's own round tripper (the default *http.Transport of NewProxy): the request,
+// with whatever context the proxy gave it, is passed through untouched.
+type rtObs struct {
+	w    *world
+	base http.RoundTripper
+}
+
+func (t rtObs) RoundTrip(req *http.Request) (*http.Response, error) {
+	addr, _ := ids(req)
+	sc := t.w.connOf(addr)
+	if sc == nil {
+		t.w.log.add("bad:-1:unknown-conn-in-rt")
+		return t.base.RoundTrip(req)
+	}
+	t.w.log.add("rts:%d", sc.k)
+	res, err := t.base.RoundTrip(req)
+	if err != nil {
+		t.w.log.add("rtx:%d:%s", sc.k, sanitize(err.Error()))
+		return res, err
+	}
+	if res.Close {
+		t.w.log.add("rte:%d:1", sc.k)
+	} else {
+		t.w.log.add("rte:%d:0", sc.k)
+	}
+	return res, err
+}
+
+// origin is a raw TCP HTTP/1.1 server: it answers every request with 200 and the world's body
+// (Content-Length or chunked), parking where the plan of the requesting connection says.
+type origin struct {
+	w       *world
+	ln      net.Listener
+	chunked bool
+	mu      sync.Mutex
+	conns   []net.Conn
+}
+
+func (o *origin) serve() {
+	for {
+		c, err := o.ln.Accept()
+		if err != nil {
+			return
+		}
+		o.mu.Lock()
+		o.conns = append(o.conns, c)
+		o.mu.Unlock()
+		go o.handle(c)
+	}
+}
+
+func (o *origin) close() {
+	o.ln.Close()
+	o.mu.Lock()
+	for _, c := range o.conns {
+		c.Close()
+	}
+	o.mu.Unlock()
+}
+
+func (o *origin) handle(c net.Conn) {
+	defer c.Close()
+	br := bufio.NewReader(c)
+	for {
+		c.SetReadDeadline(time.Now().Add(60 * time.Second))
+		req, err := http.ReadRequest(br)
+		if err != nil {
+			return
+		}
+		io.Copy(io.Discard, req.Body)
+		addr, i := ids(req)
+		var pl *cplan
+		if sc := o.w.connOf(addr); sc != nil && sc.plan != nil && sc.plan.parkSeq == i {
+			pl = sc.plan
+		}
+		head := "HTTP/1.1 200 OK\r\nContent-Type: application/octet-stream\r\n"
+		var payload []byte
+		if o.chunked {
+			head += "Transfer-Encoding: chunked\r\n"
+			for b := o.w.body; len(b) > 0; {
+				n := 1000
+				if n > len(b) {
+					n = len(b)
+				}
+				payload = append(payload, fmt.Sprintf("%x\r\n", n)...)
+				payload = append(payload, b[:n]...)
+				payload = append(payload, "\r\n"...)
+				b = b[n:]
+			}
+			payload = append(payload, "0\r\n\r\n"...)
+		} else {
+			head += "Content-Length: " + strconv.Itoa(len(o.w.body)) + "\r\n"
+			payload = o.w.body
+		}
+		if pl != nil && pl.resClose {
+			head += "Connection: close\r\n"
+		}
+		if pl != nil && pl.point == "rt" {
+			pl.arrive()
+			waitCh(pl.gate, 30*time.Second)
+		}
+		half := len(payload) / 2
+		c.SetWriteDeadline(time.Now().Add(30 * time.Second))
+		if _, err := c.Write(append([]byte(head+"\r\n"), payload[:half]...)); err != nil {
+			return
+		}
+		if pl != nil && pl.point == "wbody" {
+			pl.oarrive()
+			waitCh(pl.gate, 30*time.Second)
+		}
+		if pl != nil && pl.point == "rbody" {
+			pl.oarrive()
+			waitCh(pl.ogate, 30*time.Second)
+		}
+		c.SetWriteDeadline(time.Now().Add(30 * time.Second))
+		if _, err := c.Write(payload[half:]); err != nil {
+			return
+		}
+		if pl != nil && pl.resClose {
+			return
+		}
+	}
+}
+
 func newWorld(bodyLen int, plans []*cplan) (*world, error) {
+	return newWorldT(bodyLen, plans, false, false)
+}
+
+// newWorldT: realTransport = keep the proxy's default transport and serve the requests from a raw origin.
+func newWorldT(bodyLen int, plans []*cplan, realTransport, chunked bool) (*world, error) {
 	mlog.SetLevel(mlog.Silent)
-	w := &world{log: &evlog{}, conns: map[string]*sconn{}, plans: plans, serveDone: make(chan struct{})}
+	w := &world{log: &evlog{}, conns: map[string]*sconn{}, plans: plans, serveDone: make(chan struct{}), host: hostName}
 	w.body = make([]byte, bodyLen)
 	for i := range w.body {
 		w.body[i] = byte('a' + i%26)
@@ -373,7 +592,19 @@ func newWorld(bodyLen int, plans []*cplan) (*world, error) {
 	w.ln = &wlistener{Listener: l, w: w}
 	w.p = martian.NewProxy()
 	w.p.SetTimeout(60 * time.Second)
-	w.p.SetRoundTripper(rtrip{w})
+	if realTransport {
+		ol, err := net.Listen("tcp", "127.0.0.1:0")
+		if err != nil {
+			l.Close()
+			return nil, err
+		}
+		w.org = &origin{w: w, ln: ol, chunked: chunked}
+		w.host = ol.Addr().String()
+		go w.org.serve()
+		w.p.SetRoundTripper(rtObs{w: w, base: w.p.GetRoundTripper()})
+	} else {
+		w.p.SetRoundTripper(rtrip{w})
+	}
 	w.p.SetRequestModifier(reqMod{w})
 	w.p.SetResponseModifier(resMod{w})
 	go func() {
@@ -449,7 +680,7 @@ func (cl *client) reader() {
 		cl.w.log.add("head:%s:%d", cl.key(), mark)
 		b, err := io.ReadAll(res.Body)
 		if err != nil || res.StatusCode != 200 || !bytes.Equal(b, cl.w.body) {
-			cl.w.log.add("bad:%s:incomplete-response-%d-of-%d", cl.key(), len(b), len(cl.w.body))
+			cl.w.log.add("bad:%s:status-%d-body-%d-of-%d-not-the-origin-response", cl.key(), res.StatusCode, len(b), len(cl.w.body))
 			cl.w.log.add("eof:%s", cl.key())
 			return
 		}
@@ -472,7 +703,7 @@ func sanitize(s string) string {
 }
 
 func (cl *client) reqBytes(closeHdr bool) []byte {
-	s := "GET http://" + hostName + "/ HTTP/1.1\r\nHost: " + hostName + "\r\nX-Conn: " + cl.addr + "\r\nX-Seq: " + strconv.Itoa(cl.seq) + "\r\n"
+	s := "GET http://" + cl.w.host + "/ HTTP/1.1\r\nHost: " + cl.w.host + "\r\nX-Conn: " + cl.addr + "\r\nX-Seq: " + strconv.Itoa(cl.seq) + "\r\n"
 	if closeHdr {
 		s += "Connection: close\r\n"
 	}
@@ -517,6 +748,9 @@ type scenario struct {
 	q, s  []bool
 	order []int
 	body  int
+	real  bool // t=1: real default transport + raw origin
+	chunk bool // te=1: the origin answers chunked
+	delay int  // d: µs between "shutdown observable" and the first release
 }
 
 var points = []string{"idle", "head", "reqmod", "rt", "resmod", "write"}
@@ -576,9 +810,27 @@ func parseScn(op string) (*scenario, bool) {
 				return nil, false
 			}
 			sc.body = n
+		case "t", "te":
+			if kv[1] != "0" && kv[1] != "1" {
+				return nil, false
+			}
+			if kv[0] == "t" {
+				sc.real = kv[1] == "1"
+			} else {
+				sc.chunk = kv[1] == "1"
+			}
+		case "d":
+			n, err := strconv.Atoi(kv[1])
+			if err != nil || n < 0 || n > 20000 {
+				return nil, false
+			}
+			sc.delay = n
 		default:
 			return nil, false
 		}
+	}
+	if sc.chunk && !sc.real {
+		return nil, false
 	}
 	n := len(sc.pts)
 	if n < 1 || n > 4 {
@@ -611,6 +863,13 @@ func parseScn(op string) (*scenario, bool) {
 	for i, p := range sc.pts {
 		switch p {
 		case "idle", "head", "reqmod", "rt", "resmod", "write":
+		case "rbody", "wbody":
+			// rbody: the proxy does not read the origin's body while parked in the response modifier —
+			// the first half must fit the socket buffers
+			// (and there must be a second half for the origin to hold back)
+			if !sc.real || sc.body < 1 || (p == "rbody" && sc.body > 100000) {
+				return nil, false
+			}
 		case "gate", "late":
 			if i != n-1 { // Serve is stuck behind a gate conn; after shutdown it accepts at most one more
 				return nil, false
@@ -640,9 +899,9 @@ func runScenario(sc *scenario) (trace []string, v verdict, counted map[int]bool)
 	n := len(sc.pts)
 	plans := make([]*cplan, n)
 	for k := 0; k < n; k++ {
-		plans[k] = &cplan{point: sc.pts[k], parkSeq: sc.x[k], resClose: sc.s[k], gate: make(chan struct{}), parked: make(chan struct{})}
+		plans[k] = newPlan(sc.pts[k], sc.x[k], sc.s[k])
 	}
-	w, err := newWorld(sc.body, plans)
+	w, err := newWorldT(sc.body, plans, sc.real, sc.chunk)
 	if err != nil {
 		v.set("c07:harness", "listen: %v", err)
 		return nil, v, nil
@@ -652,6 +911,7 @@ func runScenario(sc *scenario) (trace []string, v verdict, counted map[int]bool)
 	defer func() {
 		for _, pl := range plans {
 			pl.release()
+			pl.orelease()
 		}
 		w.ln.Close()
 		for _, cl := range clients {
@@ -660,7 +920,21 @@ func runScenario(sc *scenario) (trace []string, v verdict, counted map[int]bool)
 			}
 		}
 		waitCh(w.serveDone, stepDeadline)
+		if w.org != nil {
+			w.org.close()
+			if o, ok := w.p.GetRoundTripper().(rtObs); ok {
+				if tr, ok := o.base.(*http.Transport); ok {
+					tr.CloseIdleConnections()
+				}
+			}
+		}
 	}()
+	// the head of the parked response reaches the client side while the origin still holds the second
+	// half only if the first half overflows the proxy's 4 KiB write buffer
+	headFlushes := sc.body/2 >= 8192
+	writeBegun := func(k int) bool {
+		return poll(stepDeadline, func() bool { return w.byIdx[k].started() > sc.x[k] })
+	}
 
 	connect := func(k int) bool {
 		cl, err := w.dial()
@@ -739,7 +1013,16 @@ func runScenario(sc *scenario) (trace []string, v verdict, counted map[int]bool)
 				v.set("c07:harness", "send: %v", err)
 				return w.log.snapshot(), v, counted
 			}
-			if !waitCh(plans[k].parked, stepDeadline) {
+			ok := true
+			switch pt {
+			case "rbody": // origin has sent half, exchange parked in the response modifier
+				ok = waitCh(plans[k].oparked, stepDeadline) && waitCh(plans[k].parked, stepDeadline)
+			case "wbody": // origin has sent half, the proxy is past the response modifier and relays the body
+				ok = waitCh(plans[k].oparked, stepDeadline) && waitCh(plans[k].rmDone, stepDeadline) && (!headFlushes || writeBegun(k))
+			default:
+				ok = waitCh(plans[k].parked, stepDeadline)
+			}
+			if !ok {
 				v.set("c07:no-progress:"+pt, "connection %d: exchange did not reach %s", k, pt)
 				return w.log.snapshot(), v, counted
 			}
@@ -777,6 +1060,10 @@ func runScenario(sc *scenario) (trace []string, v verdict, counted map[int]bool)
 		}
 	}
 
+	if sc.delay > 0 {
+		time.Sleep(time.Duration(sc.delay) * time.Microsecond)
+	}
+
 	// 3. releases, in the given order
 	for _, k := range sc.order {
 		switch sc.pts[k] {
@@ -796,6 +1083,16 @@ func runScenario(sc *scenario) (trace []string, v verdict, counted map[int]bool)
 		default:
 			w.log.add("open:%d", k)
 			plans[k].release()
+			if sc.pts[k] == "rbody" {
+				// the response modifier returns; the proxy relays what it has; then the origin sends the rest
+				if headFlushes {
+					writeBegun(k)
+				} else {
+					time.Sleep(time.Millisecond)
+				}
+				w.log.add("open:%d", k)
+				plans[k].orelease()
+			}
 			if !waitCh(w.byIdx[k].closed, stepDeadline) {
 				v.set("c07:conn-not-closed", "connection %d (parked in %s) was not closed within %v of its release during shutdown", k, sc.pts[k], stepDeadline)
 			}
@@ -902,6 +1199,10 @@ func judge(trace []string) (v verdict, early bool) {
 			c.cc = i
 		case "eof":
 			c.eof = i
+		case "rtx":
+			if c.bad == "" {
+				c.bad = "round trip abandoned by the proxy (" + e.arg + ") although the origin answers"
+			}
 		case "rqs":
 			c.rqs = append(c.rqs, i)
 		case "rme":
@@ -1041,6 +1342,12 @@ func (e *ex) do(op string) core.Result {
 			core.Count("point:" + pt)
 		}
 		core.Count(fmt.Sprintf("conns:%d", len(sc.pts)))
+		if sc.real {
+			core.Count("real-transport")
+			if sc.chunk {
+				core.Count("real-transport:chunked")
+			}
+		}
 		if early {
 			core.Count("close-returned-early")
 		}
@@ -1305,6 +1612,64 @@ func randScn(r *core.Rand, special bool) string {
 	return scnOp(pts, x, q, s, ps[r.Intn(len(ps))], body)
 }
 
+// real-transport scenarios (t=1): points of the upstream phase first
+var realPoints = []string{"rt", "rbody", "wbody", "rt", "rbody", "wbody", "reqmod", "resmod", "write", "idle", "head"}
+
+func realOp(pts []string, x, q, s, o []int, body, chunked, delay int) string {
+	return scnOp(pts, x, q, s, o, body) + fmt.Sprintf(" t=1 te=%d d=%d", chunked, delay)
+}
+
+func randReal(r *core.Rand) string {
+	n := 1
+	if r.Chance(1, 3) {
+		n = r.Range(2, 3)
+	}
+	pts := make([]string, n)
+	x, q, s := make([]int, n), make([]int, n), make([]int, n)
+	for i := range pts {
+		pts[i] = realPoints[r.Intn(len(realPoints))]
+		if r.Chance(1, 3) {
+			x[i] = r.Range(1, 2)
+		}
+		if r.Chance(1, 6) {
+			q[i] = 1
+		}
+		if r.Chance(1, 6) {
+			s[i] = 1
+		}
+	}
+	ps := perms(n)
+	body := []int{0, 1, 64, 5000, 20000, 70000, 70000}[r.Intn(7)]
+	for _, p := range pts {
+		if body == 0 && (p == "rbody" || p == "wbody") {
+			body = 1
+		}
+	}
+	return realOp(pts, x, q, s, ps[r.Intn(len(ps))], body, r.Intn(2), []int{0, 200, 2000, 2000}[r.Intn(4)])
+}
+
+// realGrid: every upstream point × framing × body size × warm-up, one connection.
+func realGrid(emit func(ops []string), full bool) {
+	bodies := []int{64, 70000}
+	xs := []int{0}
+	if full {
+		bodies = []int{0, 1, 64, 5000, 20000, 70000}
+		xs = []int{0, 1, 2}
+	}
+	for _, p := range []string{"reqmod", "rt", "rbody", "wbody", "resmod", "write"} {
+		for te := 0; te < 2; te++ {
+			for _, b := range bodies {
+				if b == 0 && (p == "rbody" || p == "wbody") {
+					continue
+				}
+				for _, x := range xs {
+					emit([]string{realOp([]string{p}, []int{x}, []int{0}, []int{0}, []int{0}, b, te, 2000)})
+				}
+			}
+		}
+	}
+}
+
 func (P) Gen(r *core.Rand, tier string, emit func(ops []string)) {
 	zeros := func(n int) []int { return make([]int, n) }
 	if tier == "thorough" {
@@ -1335,8 +1700,17 @@ func (P) Gen(r *core.Rand, tier string, emit func(ops []string)) {
 				}
 			}
 		}
+		realGrid(emit, true)
+		for _, b := range []int{300000, 1 << 20} {
+			for te := 0; te < 2; te++ {
+				emit([]string{realOp([]string{"wbody"}, []int{0}, []int{0}, []int{0}, []int{0}, b, te, 2000)})
+			}
+		}
 		for i := 0; i < 4000; i++ {
 			emit([]string{randScn(r, i%4 == 0)})
+		}
+		for i := 0; i < 800; i++ {
+			emit([]string{randReal(r)})
 		}
 		for i := 0; i < 200; i++ {
 			emit([]string{fmt.Sprintf("race c=%d d=%d", r.Pick2(r.Range(1, 6), r.Range(7, 32)), r.Pick2(0, r.Range(0, 3000)))})
@@ -1359,8 +1733,12 @@ func (P) Gen(r *core.Rand, tier string, emit func(ops []string)) {
 	rec2(nil, 1)
 	rec2(nil, 2)
 	core.Notes["exhaustive"] = "all 6^n placements × n! release orders for n=1..2 (78 scenarios), x=q=s=0, body 64"
+	realGrid(emit, false)
 	for i := 0; i < 420; i++ {
 		emit([]string{randScn(r, i%5 == 0)})
+	}
+	for i := 0; i < 80; i++ {
+		emit([]string{randReal(r)})
 	}
 	for i := 0; i < 30; i++ {
 		emit([]string{fmt.Sprintf("race c=%d d=%d", r.Pick2(r.Range(1, 6), r.Range(7, 24)), r.Pick2(0, r.Range(0, 2000)))})
